@@ -450,12 +450,16 @@ impl BlockFilterRpc for BlockFilterRpcImpl {
         ) = build_filter_options(search_key)?;
         let mode = IteratorMode::From(from_key.as_ref(), direction);
         let snapshot = self.swc.storage().db.snapshot();
+        #[cfg(feature = "verif")]
+        crate::verif_hooks::point("reader", "snapshot");
         let iter = snapshot.iterator(mode).skip(skip);
 
         let mut last_key = Vec::new();
         let cells = iter
             .take_while(|(key, _value)| key.starts_with(&prefix))
             .filter_map(|(key, value)| {
+                #[cfg(feature = "verif")]
+                crate::verif_hooks::point("reader", "cell_entry");
                 let tx_hash = packed::Byte32::from_slice(&value).expect("stored tx hash");
                 let output_index = u32::from_be_bytes(
                     key[key.len() - 4..]
@@ -622,6 +626,8 @@ impl BlockFilterRpc for BlockFilterRpcImpl {
 
         let mode = IteratorMode::From(from_key.as_ref(), direction);
         let snapshot = self.swc.storage().db.snapshot();
+        #[cfg(feature = "verif")]
+        crate::verif_hooks::point("reader", "snapshot");
         let iter = snapshot.iterator(mode).skip(skip);
 
         if search_key.group_by_transaction.unwrap_or_default() {
@@ -629,6 +635,8 @@ impl BlockFilterRpc for BlockFilterRpcImpl {
             let mut last_key = Vec::new();
 
             for (key, value) in iter.take_while(|(key, _value)| key.starts_with(&prefix)) {
+                #[cfg(feature = "verif")]
+                crate::verif_hooks::point("reader", "tx_entry");
                 let tx_hash = packed::Byte32::from_slice(&value).expect("stored tx hash");
                 if tx_with_cells.len() == limit
                     && tx_with_cells.last_mut().unwrap().transaction.hash != tx_hash.unpack()
@@ -743,6 +751,8 @@ impl BlockFilterRpc for BlockFilterRpcImpl {
             let txs = iter
                 .take_while(|(key, _value)| key.starts_with(&prefix))
                 .filter_map(|(key, value)| {
+                    #[cfg(feature = "verif")]
+                    crate::verif_hooks::point("reader", "tx_entry");
                     let tx_hash = packed::Byte32::from_slice(&value).expect("stored tx hash");
                     let tx = packed::Transaction::from_slice(
                         &snapshot
@@ -858,11 +868,15 @@ impl BlockFilterRpc for BlockFilterRpcImpl {
         ) = build_filter_options(search_key)?;
         let mode = IteratorMode::From(from_key.as_ref(), direction);
         let snapshot = self.swc.storage().db.snapshot();
+        #[cfg(feature = "verif")]
+        crate::verif_hooks::point("reader", "snapshot");
         let iter = snapshot.iterator(mode).skip(skip);
 
         let capacity: u64 = iter
             .take_while(|(key, _value)| key.starts_with(&prefix))
             .filter_map(|(key, value)| {
+                #[cfg(feature = "verif")]
+                crate::verif_hooks::point("reader", "cell_entry");
                 let tx_hash = packed::Byte32::from_slice(&value).expect("stored tx hash");
                 let output_index = u32::from_be_bytes(
                     key[key.len() - 4..]
@@ -959,6 +973,8 @@ impl BlockFilterRpc for BlockFilterRpcImpl {
             })
             .sum();
 
+        #[cfg(feature = "verif")]
+        crate::verif_hooks::point("reader", "capacity_tip");
         let key = Key::Meta(LAST_STATE_KEY).into_vec();
         let tip_header = snapshot
             .get(key)
